@@ -23,18 +23,44 @@ SEEDS = {
  "C15-m2": ("pkg/ecdsa/c15_demo_test.go", "go test -vet=off -count=1 -run TestC15 ./pkg/ecdsa/"),
  "C11-m1": ("protocols/frost/sign/demo_c11_m1_test.go", "go test -vet=off -count=1 -run TestC11M1 ./protocols/frost/sign/"),
  "C11-m2": ("pkg/taproot/demo_c11_m2_test.go", "go test -vet=off -count=1 -run TestC11M2 ./pkg/taproot/"),
+ "C10-m1": ("pkg/zk/fac/c10_m1_demo_test.go", "go test -vet=off -count=1 -run TestDemoC10FacUnbalancedFactors ./pkg/zk/fac/"),
+ "C10-m2": ("pkg/zk/logstar/c10_m2_demo_test.go", "go test -vet=off -count=1 -run TestDemoC10LogstarBoundToAux ./pkg/zk/logstar/"),
+ "C03-m1": ("protocols/frost/c03_m1_demo_test.go", "go test -vet=off -count=1 -run TestC03M1 ./protocols/frost/"),
+ "C03-m2": ("protocols/frost/c03_m2_demo_test.go", "go test -vet=off -count=1 -run TestC03M2 ./protocols/frost/"),
+ "C01-m1": ("protocols/doerner/c01_m1_demo_test.go", "go test -vet=off -count=1 -run TestC01M1 ./protocols/doerner/"),
+ "C01-m2": ("protocols/frost/c01_m2_demo_test.go", "go test -vet=off -count=1 -run TestC01M2 ./protocols/frost/"),
+ "C14-m1": ("internal/bip32/demo_test.go", "go test -vet=off -count=1 -run TestDemo ./internal/bip32/"),
+ "C14-m2": ("protocols/cmp/sign/demo_test.go", "go test -vet=off -count=1 -run TestDemoSiblingDerivation ./protocols/cmp/sign/"),
+ "C12-m1": ("pkg/paillier/zz_demo_c12_test.go", "go test -vet=off -count=1 -run TestDemoEncRangeBoundary ./pkg/paillier/"),
+ "C12-m2": ("internal/mta/zz_demo_c12_test.go", "go test -vet=off -count=1 -run TestDemo ./internal/mta/"),
+ "C16-m1": ("pkg/ecdsa/seed_c16_m1_test.go", "go test -vet=off -count=1 -run TestSeedC16M1 ./pkg/ecdsa/"),
+ "C16-m2": ("pkg/taproot/seed_c16_m2_test.go", "go test -vet=off -count=1 -run TestSeedC16M2 ./pkg/taproot/"),
+ "C02-m1": ("protocols/frost/keygen/c02_m1_demo_test.go", "go test -vet=off -count=1 -run TestC02M1 ./protocols/frost/keygen/"),
+ "C02-m2": ("protocols/cmp/keygen/c02_m2_demo_test.go", "go test -vet=off -count=1 -timeout 20m -run TestC02M2 ./protocols/cmp/keygen/"),
+ "C08-m1": ("protocols/cmp/c08_demo_test.go", "go test -vet=off -count=1 -run TestC08CMPRefresh ./protocols/cmp/"),
+ "C08-m2": ("protocols/doerner/keygen/c08_demo_test.go", "go test -vet=off -count=1 -run TestC08DoernerRefresh ./protocols/doerner/keygen/"),
+ "C13-m1": ("internal/ot/c13_m1_demo_test.go", "go test -vet=off -count=1 -run TestC13M1 ./internal/ot/"),
+ "C13-m2": ("internal/ot/c13_m2_demo_test.go", "go test -vet=off -count=1 -run TestC13M2 ./internal/ot/"),
+ "C18-m1": ("pkg/pool/demo_test.go", "go test -vet=off -count=1 -timeout 300s -run TestDemoParallelizeKeepsWorkers ./pkg/pool/"),
+ "C18-m2": ("pkg/pool/demo_test.go", "go test -vet=off -count=1 -timeout 300s -run TestDemoSearchKeepsWorkers ./pkg/pool/"),
 }
 def sh(cmd, cwd, timeout=2400):
     r = subprocess.run(cmd, shell=True, cwd=cwd, env=ENV, capture_output=True, text=True, timeout=timeout)
     return r.returncode, (r.stdout + r.stderr)[-1500:]
 def main():
+    import concurrent.futures as cf
     which = sys.argv[1:] or sorted(SEEDS)
-    for sid in which:
+    with cf.ThreadPoolExecutor(max_workers=int(os.environ.get("SEED_PAR", "3"))) as ex:
+        list(ex.map(one, which))
+
+
+def one(sid):
+    if True:
         prop, m = sid.split("-")
         src = f"/tmp/seed/out-{prop}/{m}"
         dst = f"/verif/seeded/{sid}"
         if not os.path.exists(src + "/patch.diff"):
-            print(sid, "missing"); continue
+            print(sid, "missing"); return
         wt = f"/tmp/seedconfirm-{sid}"
         subprocess.run(f"git -C /repo worktree remove --force {wt}", shell=True, capture_output=True)
         subprocess.run(f"git -C /repo worktree add -q --detach {wt} HEAD", shell=True, check=True)
